@@ -1,6 +1,10 @@
 package main
 
-import "golang.org/x/tools/go/ssa"
+import (
+	"strings"
+
+	"golang.org/x/tools/go/ssa"
+)
 
 // Lock tables (E3), frozen from the code and its own comments; one entry per
 // mutex-bearing struct that a property anchors.
@@ -58,5 +62,16 @@ func init() {
 	register("LOCKDISC", "development: lock discovery", func(r *Run) {
 		r.Rule("LOCKDISC")
 		r.LockDiscover([]string{"submission", "ctpolicy", "jsonclient", "scanner", "ctutil", "trillian/ctfe"}, lockTable, lockExempt)
+	})
+}
+
+func init() {
+	register("NILARGS", "development: nil constants passed to dereferencing parameters", func(r *Run) {
+		r.Rule("NILARGS")
+		n := r.NilArgs(func(fn *ssa.Function) bool {
+			pk := fnPkg(fn)
+			return pk != nil && strings.HasPrefix(pk.Path(), ModPath)
+		})
+		r.Floor("nil pointer arguments", n, 1)
 	})
 }
